@@ -1,8 +1,8 @@
-SPECIFICATION MCSpec
+SPECIFICATION LiveSpec
 CONSTANTS
   Nodes = {"a"}
   Kinds = {"E"}
-  MaxOps = 3
+  MaxOps = 2
   MaxSys = 0
   MaxFail = 1
   MaxRecFail = 1
@@ -12,8 +12,8 @@ CONSTANTS
   MaxZombie = 0
   MaxSnap = 0
   Keeps = {0}
-  Eager = TRUE
-INVARIANTS TypeOK C18_IdContent C18_NoSkip C18_FirstOrder C18_LPSound I_DispAboveLP NoPanic
-PROPERTIES StepsOK
+  Eager = FALSE
+INVARIANTS TypeOK
+PROPERTIES C18_Eventually
 VIEW MCView
 CHECK_DEADLOCK FALSE
